@@ -843,6 +843,7 @@ func (x *Exec) loopHead(st *State, fr *Frame, b *ssa.BasicBlock, pred *ssa.Basic
 		}
 	}
 	env := x.envFor(st, fr)
+	env.loopHead = true
 	tag := fmt.Sprintf("%d", ord)
 	if fr.fn != x.fn {
 		tag = relName(fr.fn) + "." + tag
@@ -888,6 +889,7 @@ func (x *Exec) loopHead(st *State, fr *Frame, b *ssa.BasicBlock, pred *ssa.Basic
 	x.havoc(st, fr, eff)
 	x.havocShared(st, fr)
 	env = x.envFor(st, fr)
+	env.loopHead = true
 	if spec != nil {
 		for _, c := range spec.Invariants {
 			st.assume(x.evalBool(env, c.E))
